@@ -122,7 +122,7 @@ class FnGen:
     # -- statements ------------------------------------------------------------
     def stmt(self, allow):
         d = self.draw
-        ok = {"draw": True, "vdist": True, "call": bool(self.plain), "vmap": any(not s["kw"] for s in self.plain.values()),
+        ok = {"draw": True, "vdist": True, "call": bool(self.plain), "vmap": any(not s["kw"] and not s.get("det") for s in self.plain.values()),
               "scan": bool(self.steps), "cond": bool(self.cfg["cond_pairs"]) and all(p[0] in self.plain for p in self.cfg["cond_pairs"]),
               "nest": True}
         kind = d(st.sampled_from([k for k in allow if ok[k]] or ["draw"]))
@@ -160,7 +160,7 @@ class FnGen:
             self.vars.append((["v", a], "f"))
             self.n_sites += sig["sites"]
         elif kind == "vmap":
-            f = d(st.sampled_from(sorted(k for k, s in self.plain.items() if not s["kw"])))
+            f = d(st.sampled_from(sorted(k for k, s in self.plain.items() if not s["kw"] and not s.get("det"))))
             sig = self.plain[f]
             n = d(st.integers(2, 3))
             axes = [d(st.sampled_from([0, 0, None])) for _ in range(sig["np"])]
@@ -303,8 +303,13 @@ def programs(draw, discrete=False, max_sites=14, combinators=("call", "vmap", "s
                             kw=("sk",) if use_kw else ())
         fns[name], plain[name] = fn, {"np": fn["np"], "kw": fn["kw"], "sites": sites}
         order.append(name)
+    if "call" in combinators and (force == "detcall" or draw(st.integers(0, 3)) == 0):
+        # a generative function without random choices (a deterministic helper traced with `@`): its return value still depends
+        # on its arguments, so every GFI operation has to re-execute it when they change
+        fns["D0"], plain["D0"] = {"np": 1, "kw": [], "body": [], "ret": ["aff", draw(coef), ["tanh", ["p", 0]], draw(fconst)]}, {"np": 1, "kw": [], "sites": 0, "det": True}
+        order.append("D0")
     if "cond" in combinators:
-        base = draw(st.sampled_from(order))
+        base = draw(st.sampled_from([o for o in order if o != "D0"]))
         if True:
             alt = base + "x"
             fns[alt] = _perturb_fn(draw, fns[base])
@@ -342,6 +347,16 @@ def programs(draw, discrete=False, max_sites=14, combinators=("call", "vmap", "s
         g.body.append(["cond", c, ["v", a], ft, ff, [g.scalar() for _ in range(plain[ft]["np"])]] + ([{k: g.scalar(0) for k in plain[ft]["kw"]}] if plain[ft]["kw"] else []))
         g.vars.append((["v", c], "f"))
         g.n_sites += 1 + plain[ft]["sites"]
+    elif force == "detcall" and "D0" in plain:
+        # a draw, a choice-free sub-call on it, and a draw that depends on the sub-call's return value
+        a, c, b = g.addr(), g.addr(), g.addr()
+        g.body.append(["draw", a, "normal", [g.scalar(0), ["pos", g.scalar(0)]]])
+        g.vars.append((["v", a], "f"))
+        g.body.append(["call", c, "D0", [["aff", 1.0, ["v", a], 0.0]], {}])
+        g.vars.append((["v", c], "f"))
+        g.body.append(["draw", b, "normal", [["v", c], ["pos", g.scalar(0)]]])
+        g.vars.append((["v", b], "f"))
+        g.n_sites += 2
     elif force and force in avail:
         g.stmt([force])
     for _ in range(n_main):
@@ -378,6 +393,8 @@ def features(prog):
     for name, fn in prog["fns"].items():
         if fn["kw"]:
             out.add("kwargs")
+        if not fn["body"]:
+            out.add("detcall")
         for s in fn["body"]:
             if s[0] != "draw":
                 out.add(s[0])
